@@ -43,6 +43,35 @@ def run(rep, tier, seed):
                      {"failing_input_reproduced": False})
             continue
         check_primitives(rep, g, tier, seed)
+        if g in DERIVED_QUICK or (tier != "quick" and g in DERIVED_THOROUGH):
+            check_derived(rep, g, tier, seed)
+    rep.not_run.append("chain-rule Jacobians of rplus/lplus/rminus/lminus/between by direct differentiation for SE3, SE_2_3, SGal3 "
+                       "(two symbolic elements through log: too slow); the generic layer is the same code for every group (C04 rule) and is "
+                       "differentiated here for SO2, SE2, Rn (quick) and SO3 (thorough); rplus/rminus additionally through dual numbers (C12)")
+
+
+DERIVED_QUICK = ["SO2", "SE2", "R3"]
+DERIVED_THOROUGH = ["SO3"]
+
+
+def check_derived(rep, g, tier, seed):
+    """LieGroupBase::rplus / lplus / rminus / lminus / between: the returned Jacobians are the true derivatives"""
+    for fn in ("rplus", "lplus", "rminus", "lminus", "between"):
+        C.check_anchor(rep, "LieGroupBase::%s" % fn, "include/manif/impl/lie_group_base.h")
+    HARNESS.prefetch(g, ["rplus", "lplus", "rminus", "lminus", "between"])
+    for scn in ("rplus", "lplus"):
+        for c in _paths(rep, g, scn, [("x", "G"), ("t", "T")], seed, scn):
+            rep.progress("%s %s[%s]" % (g, scn, c.path.script))
+            taylor.with_taylor(c, TAU, lambda c=c: (c.deriv_group("J_m", c.vec("out"), c.out("Ja"), "x"),
+                                                     c.deriv_group("J_t", c.vec("out"), c.out("Jb"), "t")))
+    for scn in ("rminus", "lminus"):
+        for c in _paths(rep, g, scn, [("x", "G"), ("y", "G")], seed, scn):
+            rep.progress("%s %s[%s]" % (g, scn, c.path.script))
+            taylor.with_taylor(c, TAU, lambda c=c: (c.deriv_vec("J_a", c.vec("out"), c.out("Ja"), "x"),
+                                                     c.deriv_vec("J_b", c.vec("out"), c.out("Jb"), "y")))
+    for c in _paths(rep, g, "between", [("x", "G"), ("y", "G")], seed, "between"):
+        taylor.with_taylor(c, TAU, lambda c=c: (c.deriv_group("J_a", c.vec("out"), c.out("Ja"), "x"),
+                                                 c.deriv_group("J_b", c.vec("out"), c.out("Jb"), "y")))
 
 
 def _paths(rep, g, scn, decl, seed, label):
